@@ -1,2 +1,3 @@
 import Generated.Fields
 import Generated.Shapes
+import Generated.Sites
